@@ -437,10 +437,41 @@ def extract_playback_tests(logtxt):
     return tests
 
 
+def replay_allocation_monitor(h, res):
+    """Obligations stated through the allocation-monitor STUB cannot be replayed with kani playback (the
+    native build runs the real Vec::with_capacity). They are replayed by feeding the real decoder a minimal
+    input whose count field is 0xFFFFFFFF in a child process under `ulimit -v 4 GB`: the violation reproduces
+    iff the process aborts with "memory allocation of N bytes failed"."""
+    which = h.get("replay_native")
+    exe = os.path.join(WORK, "native-target", "debug", "verif-native")
+    env = dict(ENV, CARGO_TARGET_DIR=os.path.join(WORK, "native-target"))
+    b = subprocess.run(["cargo", "build", "--offline", "-q"], cwd=os.path.join(VERIF, "native"), env=env,
+                       capture_output=True, text=True)
+    out = {"tests": [], "reproduced_dev": False, "reproduced_release": None, "path": None, "detail": ""}
+    if b.returncode != 0:
+        out["detail"] = "native build failed: " + b.stderr[-300:]
+        return out
+    p = subprocess.run(["bash", "-c", f"ulimit -v 4000000; exec {exe} alloc-replay {which}"],
+                       capture_output=True, text=True)
+    txt = (p.stdout + p.stderr)
+    m = re.search(r"memory allocation of (\d+) bytes failed", txt)
+    out["reproduced_dev"] = bool(m) and p.returncode != 0
+    out["panic"] = m.group(0) if m else txt[-200:]
+    path = os.path.join(REPLAY, h.name + ".txt")
+    with open(path, "w") as f:
+        f.write(f"# Replay for harness {h.full} (property {CURRENT_PROP[0]}): allocation-monitor obligation\n"
+                f"# command: bash -c 'ulimit -v 4000000; {exe} alloc-replay {which}'\n"
+                f"# observed: rc={p.returncode} {out['panic']}\n")
+    out["path"] = path
+    return out
+
+
 def replay_counterexample(h, res, unwindset):
     """Re-run the failing harness with concrete playback, then execute the generated unit
     test natively (dev and release). Returns dict(reproduced_dev, reproduced_release, path)."""
     ensure_dirs()
+    if h.get("replay_native") and res["failed"] and all("allocation" in (f.get("description") or "") for f in res.get("unlisted", res["failed"])):
+        return replay_allocation_monitor(h, res)
     json_path = os.path.join(LOGS, h.name + ".pb.json")
     logfile = os.path.join(LOGS, h.name + ".pb.log")
     cwd, cmd = kani_cmd(h, json_path, unwindset, playback=True)
